@@ -61,7 +61,7 @@ def rand_templates(rng):
         ts = {"props": "empty", "extra": [], "charts": rng.choice([0, 1])}
     if rng.random() < 0.3:
         pool = [["CHARTNAME", "t"], ["CREDIT", "c"], ["DISPLAYBPM", "90.000:180.000"], ["ATTACKS", "TIME=1.5:LEN=2:MODS=drunk"], ["DISPLAYBPM", "*"]]
-        tc = {"extra": rng.sample(pool, rng.randrange(0, 4)), "empty": rng.random() < 0.2}
+        tc = {"extra": rng.sample(pool, rng.randrange(0, 4)), "empty": rng.random() < 0.2, "notes2": rng.random() < 0.25}
     return ts, tc
 
 
@@ -104,8 +104,11 @@ def build(c):
         tc = SSCChart() if c["tc"]["empty"] else SSCChart.blank()
         for kk, vv in c["tc"]["extra"]:
             tc[kk] = vv
-        if "NOTES" in tc:
-            tc.move_to_end("NOTES")            # the domain: template charts end with their note data
+        if c["tc"].get("notes2") and "NOTES" in tc:
+            nv = tc["NOTES"]; del tc["NOTES"]; tc["NOTES2"] = "0001\n1000" if not nv else nv      # the alias spelling of the template's note data
+        for nk in ("NOTES", "NOTES2"):
+            if nk in tc:
+                tc.move_to_end(nk)            # the domain: template charts end with their note data
     return sm, ts, tc
 
 
